@@ -385,6 +385,10 @@ class SymReal(object):
         return "SymReal(%s%s)" % (str(self.e)[:80], "" if self.den is None else " / " + str(self.den)[:40])
 
 
+import numbers
+numbers.Real.register(SymReal)     # the proxy is a number for code that asks isinstance(x, numbers.Number)
+
+
 def _sign_cmp(sg, op, side):
     """value with structural sign sg compared (op) with 0 + side*eps; None if undetermined."""
     # effective strictness after snapping, see SymReal._cmp
